@@ -1,5 +1,4 @@
-\* case generator: every well-formed tree with MinEmit..MaxN nodes over the given alphabet
-\* (model checking), or random growth walks (-simulate); one JSON record per tree
+\* case generator (model checking): every tree shape with exactly 8 nodes over Memory(fanout 2), Compute(fanout 3), Fork, Hierarchical
 CONSTANTS
   MaxN = 8
   MaxDepth = 4
@@ -7,7 +6,6 @@ CONSTANTS
   BranchKinds = {"Fork", "Hierarchical"}
   Fanouts = {2}
   ComputeFanouts = {3}
-  BranchTags = {1}
   MinEmit = 8
   AppendComputes = TRUE
   CountOwn = FALSE
